@@ -401,49 +401,76 @@ theorem deleteRows_step {db : DB} (hw : db.LWF) {k : Bytes} {r : KeyRow} (hf : d
 
 /-! ### pop -/
 
-theorem listPop_refines {db : DB} (hw : db.LWF) (now : Int) (k : Bytes) (front : Bool) :
-    Refines now (update (fun d => listPop d k front now) db) (Spec.listPop (abs now db) k front) := by
-  unfold Refines
-  rcases lholder hw.wf now k with ⟨_, hg, hk⟩ | ⟨_, _, _, hg, hk⟩ | ⟨r, h, _, ht, hg, hk⟩ |
+/-- One pop, in full: either nothing is there to pop (no visible list, or an empty one) and
+nothing happens, or the end row is deleted and the name stands for the shortened list. -/
+theorem listPop_cases {db : DB} (hw : db.LWF) (now : Int) (k : Bytes) (front : Bool) :
+    (listPop db k front now = ⟨.error .notFound, db⟩ ∧
+      Spec.listPop (abs now db) k front = er .notFound (abs now db) ∧
+      (∀ l et, get (abs now db) k = some ⟨.list l, et⟩ → l = [])) ∨
+    (∃ (r : KeyRow) (x : Bytes) (l' : List Bytes) (db1 : DB),
+      db.findKey k = some r ∧ r.live now = true ∧
+      get (abs now db) k = some ⟨.list (elems db r.id), r.etime⟩ ∧
+      listPop db k front now = ⟨.ok (.bytes x), db1⟩ ∧ db1.LWF ∧
+      Stored db db1 k (delN now 1 r) (.list l') ∧
+      Spec.listPop (abs now db) k front = ok (.bytes x) (put (abs now db) k ⟨.list l', r.etime⟩) ∧
+      (front = false → (elems db r.id).getLast? = some x ∧ l' = (elems db r.id).dropLast)) := by
+  rcases lholder hw.wf now k with ⟨_, hg, hk⟩ | ⟨_, _, _, hg, hk⟩ | ⟨r, h, hl, ht, hg, hk⟩ |
     ⟨_, v, _, _, _, hg, hv, hk⟩
-  · simp [update, listPop, hk, Res.err, Spec.listPop, hg, Spec.er, purge_abs hw.wf.names]
-  · simp [update, listPop, hk, Res.err, Spec.listPop, hg, Spec.er, purge_abs hw.wf.names]
+  · exact Or.inl ⟨by simp [listPop, hk, Res.err], by simp [Spec.listPop, hg], by simp [hg]⟩
+  · exact Or.inl ⟨by simp [listPop, hk, Res.err], by simp [Spec.listPop, hg], by simp [hg]⟩
   · have hsorted := hw.rows_sorted r.id
     cases front with
     | true =>
       cases hrows : listRows db r.id with
       | nil =>
         have hel : elems db r.id = [] := by simp [elems, hrows]
-        simp [update, listPop, hk, hrows, Res.err, Spec.listPop, hg, hel, Spec.er,
-          purge_abs hw.wf.names]
+        refine Or.inl ⟨by simp [listPop, hk, hrows, Res.err], by simp [Spec.listPop, hg, hel], ?_⟩
+        intro l et hl'
+        rw [hg] at hl'; cases hl'; exact hel
       | cons row xs =>
         have hel : elems db r.id = row.elem :: xs.map (·.elem) := by simp [elems, hrows]
         obtain ⟨hw2, hst⟩ := deleteRows_step hw h ht [row] (by simp)
           (by intro x hx; rw [hrows]; simp at hx; simp [hx]) now
-        have ha := hst.abs_lwf hw hw2 now
-        rw [hrows, filter_not_head (hrows ▸ hsorted.nodup), delN_etime] at ha
-        have ha' : abs now (listDeleteRows db r.id [row.pos] now)
-            = purge now (put (abs now db) k ⟨.list (xs.map (·.elem)), r.etime⟩) := ha
-        simp [update, listPop, hk, hrows, Res.ok, Spec.listPop, hg, hel, Spec.ok, ha']
+        rw [hrows, filter_not_head (hrows ▸ hsorted.nodup)] at hst
+        have hst : Stored db (listDeleteRows db r.id [row.pos] now) k (delN now 1 r)
+            (.list (xs.map (·.elem))) := hst
+        have hw2 : (listDeleteRows db r.id [row.pos] now).LWF := hw2
+        refine Or.inr ⟨r, row.elem, xs.map (·.elem), listDeleteRows db r.id [row.pos] now, h, hl, hg,
+          by simp [listPop, hk, hrows, Res.ok], hw2, hst, by simp [Spec.listPop, hg, hel], ?_⟩
+        intro hc; cases hc
     | false =>
       cases hlast : (listRows db r.id).getLast? with
       | none =>
         have hrows : listRows db r.id = [] := List.getLast?_eq_none_iff.1 hlast
         have hel : elems db r.id = [] := by simp [elems, hrows]
-        simp [update, listPop, hk, hlast, Res.err, Spec.listPop, hg, hel, Spec.er,
-          purge_abs hw.wf.names]
+        refine Or.inl ⟨by simp [listPop, hk, hlast, Res.err], by simp [Spec.listPop, hg, hel], ?_⟩
+        intro l et hl'
+        rw [hg] at hl'; cases hl'; exact hel
       | some row =>
         obtain ⟨ys, hrows⟩ := List.getLast?_eq_some_iff.1 hlast
         have hel : elems db r.id = ys.map (·.elem) ++ [row.elem] := by simp [elems, hrows]
         obtain ⟨hw2, hst⟩ := deleteRows_step hw h ht [row] (by simp)
           (by intro x hx; rw [hrows]; simp at hx; simp [hx]) now
-        have ha := hst.abs_lwf hw hw2 now
-        rw [hrows, filter_not_last (hrows ▸ hsorted.nodup), delN_etime] at ha
-        have ha' : abs now (listDeleteRows db r.id [row.pos] now)
-            = purge now (put (abs now db) k ⟨.list (ys.map (·.elem)), r.etime⟩) := ha
-        simp [update, listPop, hk, hlast, Res.ok, Spec.listPop, hg, hel, Spec.ok, ha']
-  · cases v <;> first | exact absurd rfl (hv _) |
-      simp [update, listPop, hk, Res.err, Spec.listPop, hg, Spec.er, purge_abs hw.wf.names]
+        rw [hrows, filter_not_last (hrows ▸ hsorted.nodup)] at hst
+        have hst : Stored db (listDeleteRows db r.id [row.pos] now) k (delN now 1 r)
+            (.list (ys.map (·.elem))) := hst
+        have hw2 : (listDeleteRows db r.id [row.pos] now).LWF := hw2
+        refine Or.inr ⟨r, row.elem, ys.map (·.elem), listDeleteRows db r.id [row.pos] now, h, hl, hg,
+          by simp [listPop, hk, hlast, Res.ok], hw2, hst, by simp [Spec.listPop, hg, hel], ?_⟩
+        intro _; simp [hel]
+  · refine Or.inl ⟨by simp [listPop, hk, Res.err], ?_, ?_⟩
+    · cases v <;> first | exact absurd rfl (hv _) | simp [Spec.listPop, hg]
+    · intro l et hl'
+      rw [hg] at hl'; cases hl'; exact absurd rfl (hv _)
+
+theorem listPop_refines {db : DB} (hw : db.LWF) (now : Int) (k : Bytes) (front : Bool) :
+    Refines now (update (fun d => listPop d k front now) db) (Spec.listPop (abs now db) k front) := by
+  rcases listPop_cases hw now k front with ⟨hm, hs, _⟩ |
+    ⟨r, x, l', db1, _, _, _, hm, hw2, hst, hs, _⟩
+  · simp [Refines, update, hm, hs, Spec.er, purge_abs hw.wf.names]
+  · have ha := hst.abs_lwf hw hw2 now
+    rw [delN_etime] at ha
+    simp [Refines, update, hm, hs, Spec.ok, ha]
 
 /-! ### removing occurrences and trimming: one core lemma -/
 
@@ -846,5 +873,593 @@ theorem listPush_refines {db : DB} (hw : db.LWF) {now : Int} {k : Bytes}
     cases v <;> first | exact absurd rfl (hv _) |
       simp [Refines, update, listPush_eq, listPushKey_eq, hup, Res.err, Spec.listPush, hg, Spec.er,
         purge_abs hw.wf.names]
+
+/-! ### insert next to a pivot -/
+
+/-- the position of the first row holding `p` (the pivot `sqlInsertAfter` / `sqlInsertBefore`
+pick with `min(pos)`) -/
+def pivotPos (rows : List ListRow) (p : Bytes) : Option Dyadic :=
+  dyMin ((rows.filter (fun x => x.elem == p)).map (·.pos))
+
+/-- the position the insert statement computes for the new row; `none` without a pivot -/
+def insertPos (rows : List ListRow) (p : Bytes) (after : Bool) : Option Dyadic :=
+  match pivotPos rows p with
+  | none => none
+  | some pv =>
+    some (if after then
+        (match dyMin ((rows.filter (fun x => decide (pv < x.pos))).map (·.pos)) with
+         | none => round53 (pv + 1)
+         | some nx => mid53 pv nx)
+      else
+        (match dyMax ((rows.filter (fun x => decide (x.pos < pv))).map (·.pos)) with
+         | none => round53 (pv - 1)
+         | some pr => mid53 pr pv))
+
+def insKey (now : Int) (o : KeyRow) : KeyRow :=
+  { o with version := o.version + 1, mtime := now, len := o.len.map (· + 1) }
+
+theorem listInsert_eq (db : DB) (k p e : Bytes) (after : Bool) (now : Int) :
+    listInsert db k p e after now =
+      match db.liveKeyT k TList now with
+      | none => .err .notFound db
+      | some r0 =>
+        match insertPos (listRows db r0.id) p after with
+        | none => .err .pivotNotFound db
+        | some np =>
+          if ((listRows db r0.id).map (·.pos)).contains np then .err .sqlUnique db
+          else .ok (match r0.len with | some n => .int (n + 1) | none => .nil)
+            (({ db with lists := db.lists ++ [{ kid := r0.id, pos := np, elem := e }] } : DB).updKey
+              r0.id (insKey now)) := by
+  unfold listInsert insertPos pivotPos
+  cases db.liveKeyT k TList now with
+  | none => rfl
+  | some r0 =>
+    simp only []
+    cases dyMin (((listRows db r0.id).filter (fun x => x.elem == p)).map (·.pos)) <;> rfl
+
+/-- the new position splits the rows exactly where the pivot does: after the pivot and before
+everything behind it (insert after), or before the pivot and after everything in front of it -/
+def insertRoom (rows : List ListRow) (p : Bytes) (after : Bool) : Bool :=
+  match pivotPos rows p, insertPos rows p after with
+  | some pv, some np =>
+    rows.all (fun x =>
+      if after then (if decide (pv < x.pos) then decide (np < x.pos) else decide (x.pos < np))
+      else (if decide (x.pos < pv) then decide (x.pos < np) else decide (np < x.pos)))
+  | _, _ => true
+
+theorem pivotPos_none {rows : List ListRow} {p : Bytes} (h : ∀ y ∈ rows, (y.elem == p) = false) :
+    pivotPos rows p = none := by
+  unfold pivotPos
+  rw [List.filter_eq_nil_iff.2 (by intro a ha; simp [h a ha])]
+  rfl
+
+theorem pivotPos_split {pre post : List ListRow} {x : ListRow} {p : Bytes}
+    (hs : PosSorted (pre ++ x :: post)) (hx : (x.elem == p) = true)
+    (hpre : ∀ y ∈ pre, (y.elem == p) = false) : pivotPos (pre ++ x :: post) p = some x.pos := by
+  unfold pivotPos
+  have hs' := List.pairwise_append.1 hs
+  have hxs := List.pairwise_cons.1 hs'.2.1
+  rw [List.filter_append, List.filter_eq_nil_iff.2 (by intro a ha; simp [hpre a ha]),
+    List.filter_cons, if_pos hx, List.nil_append, List.map_cons]
+  apply dyMin_eq_of (by simp)
+  intro y hy
+  rcases List.mem_cons.1 hy with rfl | hy
+  · exact Dyadic.le_refl _
+  · obtain ⟨z, hz, rfl⟩ := List.mem_map.1 hy
+    exact dy_le_of_lt (of_decide_eq_true (hxs.1 z (List.mem_filter.1 hz).1))
+
+theorem listInsert_refines {db : DB} (hw : db.LWF) (now : Int) (k p e : Bytes) (after : Bool)
+    (hsp : ∀ r, db.liveKeyT k TList now = some r → insertRoom (listRows db r.id) p after = true) :
+    Refines now (update (fun d => listInsert d k p e after now) db)
+      (Spec.listInsert (abs now db) k p e after) := by
+  rcases lholder hw.wf now k with ⟨_, hg, hk⟩ | ⟨_, _, _, hg, hk⟩ | ⟨r, h, _, ht, hg, hk⟩ |
+    ⟨_, v, _, _, _, hg, hv, hk⟩
+  · simp [Refines, update, listInsert_eq, hk, Res.err, Spec.listInsert, hg, Spec.er,
+      purge_abs hw.wf.names]
+  · simp [Refines, update, listInsert_eq, hk, Res.err, Spec.listInsert, hg, Spec.er,
+      purge_abs hw.wf.names]
+  · obtain ⟨ho, _⟩ := findKey_mem h
+    have hsorted := hw.rows_sorted r.id
+    have hlen := hw.len_eq ho ht
+    have hroom := hsp r hk
+    rcases split_first (fun x : ListRow => x.elem == p) (listRows db r.id) with
+      ⟨pre, x, post, hrows, hx, hpre⟩ | hall
+    · -- the pivot is `x`
+      rw [hrows] at hsorted
+      have hpv : pivotPos (listRows db r.id) p = some x.pos := by
+        rw [hrows]; exact pivotPos_split hsorted hx hpre
+      have hel : elems db r.id = pre.map (·.elem) ++ x.elem :: post.map (·.elem) := by
+        simp [elems, hrows]
+      have hspec : Spec.insertAt p e after (elems db r.id)
+          = some (if after then pre.map (·.elem) ++ x.elem :: e :: post.map (·.elem)
+              else pre.map (·.elem) ++ e :: x.elem :: post.map (·.elem)) := by
+        rw [hel]
+        apply insertAt_split p e after x.elem hx
+        intro y hy
+        obtain ⟨z, hz, rfl⟩ := List.mem_map.1 hy
+        exact hpre z hz
+      cases hnp : insertPos (listRows db r.id) p after with
+      | none => simp [insertPos, hpv] at hnp
+      | some np =>
+        simp only [insertRoom, hpv, hnp, List.all_eq_true] at hroom
+        have hs' := List.pairwise_append.1 hsorted
+        have hxs := List.pairwise_cons.1 hs'.2.1
+        have hpre_lt : ∀ y ∈ pre, y.pos < x.pos :=
+          fun y hy => of_decide_eq_true (hs'.2.2 y hy x (by simp))
+        have hpost_gt : ∀ y ∈ post, x.pos < y.pos :=
+          fun y hy => of_decide_eq_true (hxs.1 y hy)
+        have hmem : ∀ y, y ∈ pre ∨ y = x ∨ y ∈ post → y ∈ listRows db r.id := by
+          intro y hy; rw [hrows]; simp only [List.mem_append, List.mem_cons]; exact hy
+        -- where the new position lies
+        have hA : after = true → (∀ y ∈ pre ++ [x], y.pos < np) ∧ ∀ y ∈ post, np < y.pos := by
+          intro ha
+          subst ha
+          refine ⟨?_, ?_⟩
+          · intro y hy
+            have hy' : y ∈ pre ∨ y = x := by simpa using hy
+            have hr := hroom y (hmem y (by rcases hy' with h1 | h1; exact Or.inl h1; exact Or.inr (Or.inl h1)))
+            have hnlt : ¬ x.pos < y.pos := by
+              rcases hy' with h1 | h1
+              · exact dy_lt_asymm (hpre_lt y h1)
+              · rw [h1]; exact dy_lt_irrefl _
+            simpa [hnlt] using hr
+          · intro y hy
+            have hr := hroom y (hmem y (Or.inr (Or.inr hy)))
+            simpa [hpost_gt y hy] using hr
+        have hB : after = false → (∀ y ∈ pre, y.pos < np) ∧ ∀ y ∈ x :: post, np < y.pos := by
+          intro ha
+          subst ha
+          refine ⟨?_, ?_⟩
+          · intro y hy
+            have hr := hroom y (hmem y (Or.inl hy))
+            simpa [hpre_lt y hy] using hr
+          · intro y hy
+            have hy' : y = x ∨ y ∈ post := by simpa using hy
+            have hr := hroom y (hmem y (Or.inr hy'))
+            have hnlt : ¬ y.pos < x.pos := by
+              rcases hy' with h1 | h1
+              · rw [h1]; exact dy_lt_irrefl _
+              · exact dy_lt_asymm (hpost_gt y h1)
+            simpa [hnlt] using hr
+        have hfresh : ∀ y ∈ listRows db r.id, y.pos ≠ np := by
+          intro y hy he
+          rw [hrows] at hy
+          have hy' : y ∈ pre ∨ y = x ∨ y ∈ post := by simpa using hy
+          cases after with
+          | true =>
+            obtain ⟨h1, h2⟩ := hA rfl
+            rcases hy' with h3 | h3 | h3
+            · exact dy_lt_irrefl _ (he ▸ h1 y (by simp [h3]))
+            · exact dy_lt_irrefl _ (he ▸ h1 y (by simp [h3]))
+            · exact dy_lt_irrefl _ (he ▸ h2 y h3)
+          | false =>
+            obtain ⟨h1, h2⟩ := hB rfl
+            rcases hy' with h3 | h3 | h3
+            · exact dy_lt_irrefl _ (he ▸ h1 y h3)
+            · exact dy_lt_irrefl _ (he ▸ h2 y (by simp [h3]))
+            · exact dy_lt_irrefl _ (he ▸ h2 y (by simp [h3]))
+        have hnc : ((listRows db r.id).map (·.pos)).contains np = false := by
+          rw [List.contains_eq_mem, decide_eq_false_iff_not, List.mem_map]
+          rintro ⟨y, hy, hyp⟩
+          exact hfresh y hy hyp
+        have hpn : PosNodup (db.lists ++ [{ kid := r.id, pos := np, elem := e }]) :=
+          hw.listPos.append e (fun y hy hk' => hfresh y (mem_rowsOf.2 ⟨hy, hk'⟩))
+        obtain ⟨hw2, hst⟩ := listStore_old hw h (insKey now r) rfl rfl ht
+          (db.lists ++ [{ kid := r.id, pos := np, elem := e }])
+          (fun id' hne => filter_other_append _ hne _ _) hpn
+          (by
+            rw [filter_self_append_length]
+            show r.len.map (· + 1) = _
+            rw [hw.listLen r ho ht]; simp)
+        have ha := hst.abs_lwf hw hw2 now
+        have hdb : (({ db with lists := db.lists ++ [{ kid := r.id, pos := np, elem := e }] } : DB).updKey
+              r.id (insKey now))
+            = { db.updKey r.id (fun _ => insKey now r) with
+                lists := db.lists ++ [{ kid := r.id, pos := np, elem := e }] } := by
+          have := updKey_const hw.wf.ids ho (insKey now)
+          rw [← this]; rfl
+        have hrowsNew : rowsOf (db.lists ++ [({ kid := r.id, pos := np, elem := e } : ListRow)]) r.id
+            = if after then pre ++ x :: { kid := r.id, pos := np, elem := e } :: post
+              else pre ++ { kid := r.id, pos := np, elem := e } :: x :: post := by
+          cases after with
+          | true =>
+            obtain ⟨h1, h2⟩ := hA rfl
+            have hsplit : rowsOf db.lists r.id = (pre ++ [x]) ++ post := by
+              rw [← listRows_eq_rowsOf, hrows]; simp
+            have := rowsOf_insert hpn hsplit (by simpa using hsorted) h1 h2
+            simpa using this
+          | false =>
+            obtain ⟨h1, h2⟩ := hB rfl
+            have hsplit : rowsOf db.lists r.id = pre ++ (x :: post) := by
+              rw [← listRows_eq_rowsOf, hrows]
+            have := rowsOf_insert hpn hsplit hsorted h1 h2
+            simpa using this
+        rw [hrowsNew] at ha
+        simp only [Refines, update, listInsert_eq, hk, hnp, hnc, Bool.false_eq_true, if_false, Res.ok,
+          hlen, hdb, Spec.listInsert, hg, hspec, Spec.ok]
+        refine ⟨?_, ?_⟩
+        · have hlr : (listRows db r.id).length = pre.length + post.length + 1 := by
+            rw [hrows]; simp; omega
+          cases after <;> simp [hlr] <;> omega
+        · rw [ha]
+          cases after <;> simp [insKey]
+    · -- no pivot
+      have hpv := pivotPos_none hall
+      have hnp : insertPos (listRows db r.id) p after = none := by simp [insertPos, hpv]
+      have hspec : Spec.insertAt p e after (elems db r.id) = none := by
+        apply insertAt_none
+        intro y hy
+        obtain ⟨z, hz, rfl⟩ := List.mem_map.1 hy
+        exact hall z hz
+      simp [Refines, update, listInsert_eq, hk, hnp, Res.err, Spec.listInsert, hg, hspec, Spec.er,
+        purge_abs hw.wf.names]
+  · cases v <;> first | exact absurd rfl (hv _) |
+      simp [Refines, update, listInsert_eq, hk, Res.err, Spec.listInsert, hg, Spec.er,
+        purge_abs hw.wf.names]
+
+/-! ### pop from one list, push to another -/
+
+theorem update_out (f : DB → Res) (db : DB) : (update f db).out = (f db).out := by
+  unfold update; simp only []; split <;> rfl
+
+theorem update_db_ok {f : DB → Res} {db : DB} {v : Val} (h : (f db).out = .ok v) :
+    (update f db).db = (f db).db := by
+  unfold update; simp only [h]
+
+theorem update_db_err {f : DB → Res} {db : DB} {e : Err} (h : (f db).out = .error e) :
+    (update f db).db = db := by
+  unfold update; simp only [h]
+
+/-- the specification of pop-and-push in terms of the specification of the push that follows the
+pop -/
+theorem spec_popPush {S : State} {s d : Bytes} {l : List Bytes} {et : Option Int} {x : Bytes}
+    (hg : get S s = some ⟨.list l, et⟩) (hx : l.getLast? = some x) :
+    (∀ v, (Spec.listPush (put S s ⟨.list l.dropLast, et⟩) d x true).out = .ok v →
+      Spec.listPopBackPushFront S s d
+        = ⟨.ok (.bytes x), (Spec.listPush (put S s ⟨.list l.dropLast, et⟩) d x true).st⟩) ∧
+    (∀ e, (Spec.listPush (put S s ⟨.list l.dropLast, et⟩) d x true).out = .error e →
+      Spec.listPopBackPushFront S s d = ⟨.error e, S⟩) := by
+  have hpop : Spec.listPop S s false = Spec.ok (.bytes x) (put S s ⟨.list l.dropLast, et⟩) := by
+    simp [Spec.listPop, hg, hx]
+  have hgd := get_put S s ⟨.list l.dropLast, et⟩ d
+  by_cases hsd : s = d
+  · subst hsd
+    simp only [beq_self_eq_true, if_true] at hgd
+    refine ⟨?_, ?_⟩
+    · intro v _
+      simp [Spec.listPopBackPushFront, hg, hx, hpop, Spec.ok]
+    · intro e he
+      simp [Spec.listPush, hgd, Spec.ok] at he
+  · have hb : (s == d) = false := by simpa using hsd
+    simp only [hb, Bool.false_eq_true, if_false] at hgd
+    cases hd : get S d with
+    | none =>
+      rw [hd] at hgd
+      refine ⟨?_, ?_⟩
+      · intro v _
+        simp [Spec.listPopBackPushFront, hg, hx, hd, hpop, Spec.ok]
+      · intro e he
+        simp [Spec.listPush, hgd, Spec.ok] at he
+    | some en =>
+      rw [hd] at hgd
+      obtain ⟨v, etd⟩ := en
+      cases v with
+      | list ld =>
+        refine ⟨?_, ?_⟩
+        · intro v _
+          simp [Spec.listPopBackPushFront, hg, hx, hd, hpop, Spec.ok]
+        · intro e he
+          simp [Spec.listPush, hgd, Spec.ok] at he
+      | _ =>
+        refine ⟨?_, ?_⟩
+        · intro v hv
+          simp [Spec.listPush, hgd, Spec.er] at hv
+        · intro e he
+          simp only [Spec.listPush, hgd, Spec.er] at he
+          cases he
+          simp [Spec.listPopBackPushFront, hg, hx, hd, Spec.er]
+
+theorem listPopBackPushFront_refines {db : DB} (hw : db.LWF) {now : Int} {s d : Bytes}
+    (hns : staleKey db now d = false)
+    (hsp : ∀ v, (listPop db s false now).out = .ok v →
+      pushSpacious (listPop db s false now).db d true now = true) :
+    Refines now (update (fun y => listPopBackPushFront y s d now) db)
+      (Spec.listPopBackPushFront (abs now db) s d) := by
+  rcases listPop_cases hw now s false with ⟨hm, _, hnil⟩ |
+    ⟨r, x, l', db1, hf, hl, hg, hm, hw2, hst, hs, hback⟩
+  · have hspec : Spec.listPopBackPushFront (abs now db) s d = er .notFound (abs now db) := by
+      unfold Spec.listPopBackPushFront
+      cases hgs : get (abs now db) s with
+      | none => rfl
+      | some en =>
+        obtain ⟨v, et⟩ := en
+        cases v with
+        | list l => rw [hnil l et hgs]; rfl
+        | _ => rfl
+    simp [Refines, update, listPopBackPushFront, hm, Res.err, hspec, Spec.er, purge_abs hw.wf.names]
+  · obtain ⟨hx, hl'⟩ := hback rfl
+    subst hl'
+    have hlive : liveAt now r.etime = true := hl
+    have ha1 : abs now db1 = put (abs now db) s ⟨.list (elems db r.id).dropLast, r.etime⟩ := by
+      have := hst.abs_lwf hw hw2 now
+      rw [delN_etime] at this
+      rw [this]
+      exact purge_put_live (sorted_abs hw.wf.names now) (purge_abs hw.wf.names now) s hlive
+    have hns1 : staleKey db1 now d = false := by
+      unfold staleKey at hns ⊢
+      rw [hst.find]
+      by_cases hsd : s = d
+      · simp [hsd, KeyRow.live, delN_etime, hlive]
+      · have hb : (s == d) = false := by simpa using hsd
+        simpa [hb] using hns
+    have hdb1 : (listPop db s false now).db = db1 := by rw [hm]
+    have hsp := hsp (.bytes x) (by rw [hm])
+    rw [hdb1] at hsp
+    have hR2 := listPush_refines hw2 hns1 x true hsp
+    unfold Refines at hR2
+    rw [update_out, ha1] at hR2
+    obtain ⟨hspecOk, hspecErr⟩ := spec_popPush (d := d) hg hx
+    cases hpo : (listPush db1 d x true now).out with
+    | ok v =>
+      have hmodel : listPopBackPushFront db s d now
+          = .ok (.bytes x) (listPush db1 d x true now).db := by
+        simp [listPopBackPushFront, hm, hpo]
+      rw [hpo] at hR2
+      have hdb2 := update_db_ok (f := fun y => listPush y d x true now) hpo
+      rw [hdb2] at hR2
+      rw [hspecOk v hR2.1.symm]
+      simp only [Refines, update, hmodel, Res.ok]
+      exact ⟨trivial, hR2.2⟩
+    | error e =>
+      have hmodel : listPopBackPushFront db s d now
+          = .err e (listPush db1 d x true now).db := by
+        simp [listPopBackPushFront, hm, hpo]
+      rw [hpo] at hR2
+      rw [hspecErr e hR2.1.symm]
+      simp [Refines, update, hmodel, Res.err, purge_abs hw.wf.names]
+
+/-! ### every list operation keeps `DB.LWF` (deviation classes included) -/
+
+theorem liveKeyT_some {db : DB} (hn : (db.keys.map (·.key)).Nodup) {k : Bytes} {ty now : Int}
+    {r : KeyRow} (h : db.liveKeyT k ty now = some r) :
+    db.findKey k = some r ∧ r.ty = ty ∧ r.live now = true := by
+  rw [liveKeyT_eq hn] at h
+  cases hf : db.findKey k with
+  | none => simp [hf, Option.filter] at h
+  | some r' =>
+    rw [hf] at h
+    simp only [Option.filter] at h
+    split at h
+    · rename_i hc
+      cases h
+      simp only [Bool.and_eq_true, beq_iff_eq] at hc
+      exact ⟨rfl, hc.1, hc.2⟩
+    · cases h
+
+theorem update_lwf {f : DB → Res} {db : DB} (hw : db.LWF)
+    (h : ∀ v, (f db).out = .ok v → (f db).db.LWF) : (update f db).db.LWF := by
+  cases ho : (f db).out with
+  | ok v => rw [update_db_ok ho]; exact h v ho
+  | error e => rw [update_db_err ho]; exact hw
+
+theorem listDeleteRows_lwf {db : DB} (hw : db.LWF) {k : Bytes} {ty now : Int} {r : KeyRow}
+    (hk : db.liveKeyT k TList ty = some r) (S : List ListRow) (hnd : S.Nodup)
+    (hsub : ∀ x ∈ S, x ∈ listRows db r.id) :
+    (listDeleteRows db r.id (S.map (·.pos)) now).LWF := by
+  obtain ⟨hf, ht, _⟩ := liveKeyT_some hw.wf.names hk
+  exact (deleteRows_step hw hf ht S hnd hsub now).1
+
+theorem listPop_lwf {db : DB} (hw : db.LWF) (k : Bytes) (front : Bool) (now : Int) :
+    (listPop db k front now).db.LWF := by
+  rcases listPop_cases hw now k front with ⟨hm, _, _⟩ | ⟨_, _, _, _, _, _, _, hm, hw2, _⟩
+  · rw [hm]; exact hw
+  · rw [hm]; exact hw2
+
+theorem listDelete_lwf {db : DB} (hw : db.LWF) (k e : Bytes) (now : Int) :
+    (listDelete db k e now).db.LWF := by
+  unfold listDelete
+  cases hk : db.liveKeyT k TList now with
+  | none => exact hw
+  | some r =>
+    exact listDeleteRows_lwf hw hk _ ((hw.rows_sorted r.id).nodup.sublist List.filter_sublist)
+      mem_rows_of_filter
+
+theorem listDeleteN_lwf {db : DB} (hw : db.LWF) (k e : Bytes) (n : Int) (back : Bool) (now : Int) :
+    (listDeleteN db k e n back now).db.LWF := by
+  unfold listDeleteN
+  split
+  · exact hw
+  · cases hk : db.liveKeyT k TList now with
+    | none => exact hw
+    | some r =>
+      have hfn : ((listRows db r.id).filter (fun x => x.elem == e)).Nodup :=
+        (hw.rows_sorted r.id).nodup.sublist List.filter_sublist
+      simp only []
+      apply listDeleteRows_lwf hw hk
+      · apply List.Nodup.sublist (sqlLimit_sublist _ _ _)
+        cases back
+        · exact hfn
+        · exact nodup_reverse' hfn
+      · intro x hx
+        have hx' := (sqlLimit_sublist _ _ _).subset hx
+        cases back
+        · exact mem_rows_of_filter x hx'
+        · exact mem_rows_of_filter x (List.mem_reverse.1 hx')
+
+theorem listTrim_lwf {db : DB} (hw : db.LWF) (k : Bytes) (a b : Int) (now : Int) :
+    (listTrim db k a b now).db.LWF := by
+  unfold listTrim
+  cases hk : db.liveKeyT k TList now with
+  | none => exact hw
+  | some r =>
+    simp only []
+    split
+    · exact hw
+    · split
+      · exact hw
+      · exact listDeleteRows_lwf hw hk _ ((hw.rows_sorted r.id).nodup.sublist List.filter_sublist)
+          mem_rows_of_filter
+
+theorem listSet_lwf {db : DB} (hw : db.LWF) (k : Bytes) (i : Int) (e : Bytes) (now : Int) :
+    (listSet db k i e now).db.LWF := by
+  unfold listSet
+  cases hk : db.liveKeyT k TList now with
+  | none => exact hw
+  | some r =>
+    obtain ⟨hf, ht, _⟩ := liveKeyT_some hw.wf.names hk
+    obtain ⟨ho, _⟩ := findKey_mem hf
+    simp only []
+    split
+    · exact hw
+    · rename_i row _
+      have h2 := (listStore_old hw hf (updRow now r) rfl rfl ht
+        (db.lists.map (setElemRow r.id row.pos e))
+        (fun id' hne => filter_other_setElem _ hne _ _) (hw.listPos.setElem _ _ _)
+        (by rw [filter_setElem]; exact hw.listLen r ho ht)).1
+      have hdb : ({ listOnUpdate db r.id now with
+            lists := (listOnUpdate db r.id now).lists.map (fun x =>
+              if x.kid == r.id && x.pos == row.pos then { x with elem := e } else x) } : DB)
+          = { db.updKey r.id (fun _ => updRow now r) with
+              lists := db.lists.map (setElemRow r.id row.pos e) } := by
+        have := updKey_const hw.wf.ids ho (updRow now)
+        rw [← this]; rfl
+      simp only [Res.ok]
+      rw [hdb]; exact h2
+
+theorem fresh_of_not_contains {L : List ListRow} {kid : Int} {p : Dyadic}
+    (h : ((L.filter (fun x => x.kid == kid)).map (·.pos)).contains p = false) :
+    ∀ x ∈ L, x.kid = kid → x.pos ≠ p := by
+  intro x hx hk he
+  rw [List.contains_eq_mem, decide_eq_false_iff_not] at h
+  exact h (List.mem_map.2 ⟨x, List.mem_filter.2 ⟨hx, by simpa using hk⟩, he⟩)
+
+theorem listPush_new {db : DB} {k : Bytes} (hf : db.findKey k = none) (e : Bytes) (front : Bool)
+    (now : Int) :
+    listPush db k e front now =
+      if ((db.lists.filter (fun x => x.kid == db.nextKeyId)).map (·.pos)).contains
+          (pushPos db.lists db.nextKeyId front) then
+        .err .sqlUnique { db with keys := db.keys ++ [pushNew k now db.nextKeyId] }
+      else .ok (.int 1) { db with
+        keys := db.keys ++ [pushNew k now db.nextKeyId],
+        lists := db.lists ++ [ListRow.mk db.nextKeyId (pushPos db.lists db.nextKeyId front) e] } := by
+  rw [listPush_eq, listPushKey_eq,
+    keyUpsert_new (ty := TList) (onNew := pushNew k now) (onOld := pushOld now) hf]
+  rfl
+
+theorem listPush_old {db : DB} {k : Bytes} {r : KeyRow} (hf : db.findKey k = some r) (ht : r.ty = TList)
+    (e : Bytes) (front : Bool) (now : Int) :
+    listPush db k e front now =
+      if ((db.lists.filter (fun x => x.kid == r.id)).map (·.pos)).contains
+          (pushPos db.lists r.id front) then
+        .err .sqlUnique (db.updKey r.id (fun _ => pushOld now r))
+      else .ok (match r.len.map (· + 1) with | some n => .int n | none => .nil)
+        { db.updKey r.id (fun _ => pushOld now r) with
+          lists := db.lists ++ [ListRow.mk r.id (pushPos db.lists r.id front) e] } := by
+  rw [listPush_eq, listPushKey_eq,
+    keyUpsert_old (onNew := pushNew k now) (onOld := pushOld now) hf ht]
+  rfl
+
+theorem listPush_other {db : DB} {k : Bytes} {r : KeyRow} (hf : db.findKey k = some r) (ht : r.ty ≠ TList)
+    (e : Bytes) (front : Bool) (now : Int) :
+    listPush db k e front now = .err .keyType db := by
+  rw [listPush_eq, listPushKey_eq,
+    keyUpsert_other (onNew := pushNew k now) (onOld := pushOld now) hf ht]
+
+theorem listPush_lwf {db : DB} (hw : db.LWF) (k e : Bytes) (front : Bool) (now : Int) {v : Val}
+    (hok : (listPush db k e front now).out = .ok v) : (listPush db k e front now).db.LWF := by
+  cases hf : db.findKey k with
+  | none =>
+    have hnil := hw.no_rows_fresh
+    rw [listPush_new hf] at hok ⊢
+    by_cases hc' : ((db.lists.filter (fun x => x.kid == db.nextKeyId)).map (·.pos)).contains
+        (pushPos db.lists db.nextKeyId front) = true
+    · rw [if_pos hc'] at hok; simp [Res.err] at hok
+    · rw [if_neg hc']
+      have hc : ((db.lists.filter (fun x => x.kid == db.nextKeyId)).map (·.pos)).contains
+        (pushPos db.lists db.nextKeyId front) = false := by simpa using hc'
+      simp only [Res.ok]
+      exact (listStore_new hw hf (pushNew k now db.nextKeyId) rfl rfl rfl
+        (db.lists ++ [ListRow.mk db.nextKeyId (pushPos db.lists db.nextKeyId front) e])
+        (fun id' hne => filter_other_append _ hne _ _)
+        (hw.listPos.append e (fresh_of_not_contains hc))
+        (by
+          show some (1 : Int) = some ((((db.lists ++
+            [(ListRow.mk db.nextKeyId (pushPos db.lists db.nextKeyId front) e)]).filter
+              (fun x => x.kid == db.nextKeyId)).length : Nat) : Int)
+          rw [filter_self_append_length, hnil]; rfl)).1
+  | some r =>
+    by_cases ht : r.ty = TList
+    · obtain ⟨ho, _⟩ := findKey_mem hf
+      rw [listPush_old hf ht] at hok ⊢
+      by_cases hc' : ((db.lists.filter (fun x => x.kid == r.id)).map (·.pos)).contains
+          (pushPos db.lists r.id front) = true
+      · rw [if_pos hc'] at hok; simp [Res.err] at hok
+      · rw [if_neg hc']
+        have hc : ((db.lists.filter (fun x => x.kid == r.id)).map (·.pos)).contains
+          (pushPos db.lists r.id front) = false := by simpa using hc'
+        simp only [Res.ok]
+        exact (listStore_old hw hf (pushOld now r) rfl rfl ht
+          (db.lists ++ [ListRow.mk r.id (pushPos db.lists r.id front) e])
+          (fun id' hne => filter_other_append _ hne _ _)
+          (hw.listPos.append e (fresh_of_not_contains hc))
+          (by
+            rw [filter_self_append_length]
+            show r.len.map (· + 1) = _
+            rw [hw.listLen r ho ht]; simp)).1
+    · rw [listPush_other hf ht] at hok
+      simp [Res.err] at hok
+
+theorem listInsert_lwf {db : DB} (hw : db.LWF) (k p e : Bytes) (after : Bool) (now : Int) :
+    (listInsert db k p e after now).db.LWF := by
+  rw [listInsert_eq]
+  cases hk : db.liveKeyT k TList now with
+  | none => exact hw
+  | some r =>
+    obtain ⟨hf, ht, _⟩ := liveKeyT_some hw.wf.names hk
+    obtain ⟨ho, _⟩ := findKey_mem hf
+    simp only []
+    cases insertPos (listRows db r.id) p after with
+    | none => exact hw
+    | some np =>
+      simp only []
+      split
+      · exact hw
+      · rename_i hc
+        have hfresh : ∀ y ∈ db.lists, y.kid = r.id → y.pos ≠ np := by
+          intro y hy hk' he
+          apply hc
+          rw [List.contains_eq_mem, decide_eq_true_eq]
+          exact List.mem_map.2 ⟨y, mem_rowsOf.2 ⟨hy, hk'⟩, he⟩
+        have h2 := (listStore_old hw hf (insKey now r) rfl rfl ht
+          (db.lists ++ [{ kid := r.id, pos := np, elem := e }])
+          (fun id' hne => filter_other_append _ hne _ _) (hw.listPos.append e hfresh)
+          (by
+            rw [filter_self_append_length]
+            show r.len.map (· + 1) = _
+            rw [hw.listLen r ho ht]; simp)).1
+        have hdb : (({ db with lists := db.lists ++ [{ kid := r.id, pos := np, elem := e }] } : DB).updKey
+              r.id (insKey now))
+            = { db.updKey r.id (fun _ => insKey now r) with
+                lists := db.lists ++ [{ kid := r.id, pos := np, elem := e }] } := by
+          have := updKey_const hw.wf.ids ho (insKey now)
+          rw [← this]; rfl
+        simp only [Res.ok]
+        rw [hdb]; exact h2
+
+theorem listPopBackPushFront_lwf {db : DB} (hw : db.LWF) (s d : Bytes) (now : Int) {v : Val}
+    (hok : (listPopBackPushFront db s d now).out = .ok v) :
+    (listPopBackPushFront db s d now).db.LWF := by
+  have hw1 := listPop_lwf hw s false now
+  unfold listPopBackPushFront at hok ⊢
+  simp only [] at hok ⊢
+  split
+  · exact hw1
+  · rename_i el _
+    cases hpo : (listPush (listPop db s false now).db d el true now).out with
+    | ok v' => simp only [Res.ok]; exact listPush_lwf hw1 d el true now hpo
+    | error e =>
+      rename_i heq
+      simp [heq, hpo, Res.err] at hok
+  · exact hw1
 
 end Redka.Model
